@@ -234,15 +234,18 @@ class ConcatSignal(Module):
         return state
 
     def _sensitivity(self, dy):
-        dsens = [np.zeros_like(s.state) for s in self.sig_in]
+        # Integer-valued states have real-valued sensitivities, which must not be truncated
+        is_int = [not np.issubdtype(np.asarray(s.state).dtype, np.inexact) for s in self.sig_in]
+        dsens = [np.zeros_like(s.state, dtype=float if i else None) for s, i in zip(self.sig_in, is_int)]
         dx = _split_from_array(dy, self.cumlens)
         for i, s in enumerate(self.sig_in):
             dxi = dx[i].item() if dx[i].size == 1 else dx[i]  # Scalars cannot be made from 1-element arrays in numpy>=2
-            if not isinstance(dsens[i], type(s.state)):
-                dsens[i] = type(s.state)(dxi)
+            typ = float if (is_int[i] and not isinstance(s.state, np.ndarray)) else type(s.state)
+            if not isinstance(dsens[i], typ):
+                dsens[i] = typ(dxi)
                 continue
             try:
                 dsens[i][...] = dx[i]
             except TypeError:
-                dsens[i] = type(s.state)(dxi)
+                dsens[i] = typ(dxi)
         return dsens
